@@ -37,6 +37,8 @@ pub mod persistence;
 pub mod range;
 pub mod recovery;
 pub mod ttl;
+#[cfg(feoxdb_verif)]
+pub mod verif_observe;
 
 pub(super) struct VersionClock {
     hasher: RandomState,
